@@ -118,13 +118,23 @@ def _inplace_history(case, ctx, fails):
     fns = [("distance_wei", lambda M: bct.distance_wei(M)[0]), ("distance_wei_floyd", lambda M: bct.distance_wei_floyd(M)[0])]
     if kind == "bin":
         fns += [("distance_bin", bct.distance_bin), ("reachdist", lambda M: bct.reachdist(M)[1]), ("breadthdist", lambda M: bct.breadthdist(M)[1])]
-    for _, f in fns:
-        ctx.call(f, X)
+    off = ~np.eye(n, dtype=bool)
+    Dref0 = _exact_to_float(og.exact_sp(og.to_fraction_lengths(X)))
+    for name, f in fns:
+        o = ctx.call(f, X)
+        if o.ok and isinstance(o.value, np.ndarray) and o.value.flags.writeable:
+            # the caller post-processes the matrix it was given, in place; an equal network asked afterwards must get a true answer
+            o.value[...] = -7
+            o2 = ctx.call(f, X.copy())
+            if o2.ok:
+                D = np.asarray(o2.value, dtype=float)
+                if D.shape != Dref0.shape or np.any((D != Dref0) & off):
+                    fails.append(Failure("%s:answer-depends-on-what-the-caller-did-to-an-earlier-result" % name,
+                                         "earlier result overwritten in place by the caller, same network asked again", case))
     X[cut, :] = 0
     X[:, cut] = 0
     De = og.exact_sp(og.to_fraction_lengths(X))
     Dref = _exact_to_float(De)
-    off = ~np.eye(n, dtype=bool)
     for name, f in fns:
         o = ctx.call(f, X)
         if o.ok:
